@@ -8,7 +8,10 @@ in order, without loss.
    The same variant exports every gate-point interleaving as a schedule.
 3. The Go harness forces each schedule on a real netmc.MinecraftConn over a net.Pipe whose far
    end decodes the byte stream by hand, plus deterministic scenarios (immediate config packets,
-   order, 1024-bound overflow) and free-running stress; it records call / ret / wire / sync / eof.
+   order, 1024-bound overflow), schedules at the bound (queue holding 1023, two writers forced between
+   the bound check and the push), free-running stress, and -- in a child process, whose death is
+   recorded as `died` -- bursts of four writers buffering play-only packets at once during
+   configuration; it records call / ret / wire / sync / eof.
 4. TLC validates the concatenated history against the abstract PlayQueue spec (every call takes
    effect atomically between its call and its return; the peer sees exactly `wire`).
    Rejected runs are forced a second time; only runs rejected twice are findings.
@@ -39,7 +42,7 @@ META = {
     "technique": "TLA+ spec + TLC schedule enumeration, forced replay on real code, TLC trace validation",
 }
 
-NEED_GATES = ["pq.readptr", "pq.release.begin", "pq.queued", "pq.written", "pq.activate", "pq.release"]
+NEED_GATES = ["pq.readptr", "pq.queue.checked", "pq.release.begin", "pq.queued", "pq.written", "pq.activate", "pq.release"]
 
 
 def split_runs(recs):
@@ -65,6 +68,9 @@ def classify(run):
     if mode == "scenario":
         return "scenario:%s" % head.get("name")
     for r in run:
+        if r.get("ev") == "died":
+            m = re.search(r"(panic: [^\n]*|fatal error: [^\n]*)", r.get("output", ""))
+            return "process-died:concurrent-play-writes-in-config" + (":" + re.sub(r"\W+", "-", m.group(1))[:60] if m else "")
         if r.get("ev") == "hung":
             return "hung:" + re.sub(r"\W+", "-", r.get("what", ""))
     calls, state_iv, writes = {}, [], []
@@ -90,9 +96,14 @@ def classify(run):
     if not closed:
         for c, r in writes:
             if r["res"] == "ok" and c["pkt"] not in wire:
-                return "lost:%s-write-overlaps-%s" % (c["kind"], overlap(c, r))
+                return "lost:%s-write-overlaps-%s" % (c["kind"], "concurrent-play-writes-in-config"
+                                                      if mode == "burst" else overlap(c, r))
     if len(set(wire)) != len(wire):
-        return "duplicated"
+        return "duplicated" + (":concurrent-play-writes-in-config" if mode == "burst" else "")
+    if head.get("prefill"):
+        ok_held = sum(1 for c, r in writes if c["kind"] == "P" and r["res"] == "ok")
+        if ok_held > head.get("cap", 1024):
+            return "bound-exceeded:two-writers-between-check-and-push"
     # everything arrived once: the order is wrong.  Name the packet that came too early.
     return "reordered:" + early_packet(run, writes, overlap)
 
@@ -151,12 +162,12 @@ def gate_races(out):
     return gate, other
 
 
-def harness(ctx, sched, trace, scenarios, stress, race):
+def harness(ctx, sched, trace, scenarios, stress, race, burst=0):
     with open(ctx.path(trace + ".sched.json"), "w") as fh:
         json.dump(sched, fh)
     p = ctx.harness("./c14", "TestSchedules", race=race, check=False, timeout=1500,
                     env={"VERIF_SCHED_FILE": trace + ".sched.json", "VERIF_TRACE": trace,
-                         "VERIF_SCENARIOS": scenarios, "VERIF_STRESS": stress})
+                         "VERIF_SCENARIOS": scenarios, "VERIF_STRESS": stress, "VERIF_BURST": burst})
     races, other = gate_races(p.stdout)
     if other:
         raise vlib.ToolError("race detector reports a race outside gate code (harness problem):\n"
@@ -198,6 +209,11 @@ def run(ctx):
         raise vlib.ToolError("lock-agnostic PlayQueueImpl violates only %s: invariants vacuous" % nonvac)
     ctx.log("PlayQueueImpl.tla (lock ignored): violates %s (non-vacuity ok)" % ", ".join(nonvac))
 
+    if not ctx.quick:
+        r = ctx.tlc("PlayQueueImpl", "PlayQueueImpl_boundchk.cfg", allow_violation=True, count=False)
+        if r.violated != "Bounded":
+            raise vlib.ToolError("lock-agnostic PlayQueueImpl with split Queue() does not violate Bounded")
+        nonvac.append("Bounded")
     rnd = random.Random(ctx.seed)
     base = ctx.tlc("PlayQueueImpl", "PlayQueueImpl_sched.cfg", workers=1, count=False).printed_json("SCHED")
     n_enum = len(base)
@@ -208,17 +224,28 @@ def run(ctx):
         inside = [s for s in base if in_release_window(s)]
         rest = [s for s in base if not in_release_window(s)]
         scheds = inside[:110] + rest[:110]
-        big = ctx.tlc("PlayQueueImpl", "PlayQueueImpl_sched22.cfg", workers=1, count=False,
-                      simulate=40, depth=14).printed_json("SCHED")
+        big = []
     else:
         scheds = base
         big = ctx.tlc("PlayQueueImpl", "PlayQueueImpl_sched22.cfg", workers=1, count=False,
                       simulate=1500, depth=14).printed_json("SCHED")
-    scheds = scheds + big
+    bound = ctx.tlc("PlayQueueImpl", "PlayQueueImpl_bound.cfg", workers=1, count=False).printed_json("SCHED")
+    rnd.shuffle(bound)
+    if ctx.quick:
+        # both writers send a play-only packet into the queue holding cap-1: prefer the interleavings
+        # that put both between the bound check and the push
+        both = [s for s in bound if all(k == ["P"] for k in s["prog"].values())]
+        inside = [s for s in both if s["sched"][:4] in (["w1", "w1", "w2", "w2"], ["w2", "w2", "w1", "w1"],
+                                                         ["w1", "w2", "w1", "w2"], ["w2", "w1", "w2", "w1"],
+                                                         ["w1", "w2", "w2", "w1"], ["w2", "w1", "w1", "w2"])]
+        bound = inside[:2] + [s for s in bound if s not in inside][:1]
+    scheds = scheds + big + bound
     ctx.log("schedules: %d of %d enumerated (2 writers, 3 writes, enter/leave) + %d sampled "
-            "(2x2 writes, enter/leave/enter)" % (len(scheds) - len(big), n_enum, len(big)))
+            "(2x2 writes, enter/leave/enter) + %d at the bound (queue holding cap-1, check/push split)"
+            % (len(scheds) - len(big) - len(bound), n_enum, len(big), len(bound)))
 
-    recs, stats, races, out = harness(ctx, scheds, "trace.ndjson", 1, ctx.pick(25, 400), not ctx.quick)
+    recs, stats, races, out = harness(ctx, scheds, "trace.ndjson", 1, ctx.pick(25, 400), not ctx.quick,
+                                      burst=ctx.pick(6, 60))
     missing = [g for g in NEED_GATES if not stats["gate_arrivals"].get(g)]
     if missing:
         raise vlib.ToolError("hook_missing: gates never reached: %s" % missing)
@@ -227,8 +254,9 @@ def run(ctx):
                     "changes run concurrently" % f, {"report": report})
 
     total = len(recs)
-    ctx.log("harness: %d schedules forced (%d blocked steps), %d scenarios, %d stress runs, %d events"
-            % (stats["schedules"], stats["blocked_steps"], stats["scenarios"], stats["stress_runs"], total))
+    ctx.log("harness: %d schedules forced (%d blocked steps), %d scenarios, %d stress runs, %d bursts "
+            "(child process), %d events" % (stats["schedules"], stats["blocked_steps"], stats["scenarios"],
+                                            stats["stress_runs"], stats["burst_runs"], total))
     rejected, matched, tstates = ctx.validate_runs("PlayQueue_Trace", recs)
     ctx.log("history: %d events, %d runs, %d rejected at first validation" %
             (total, stats["schedules"] + stats["scenarios"] + stats["stress_runs"], len(rejected)))
@@ -239,7 +267,8 @@ def run(ctx):
         again = [scheds[rj["run"][0]["n"]] for rj in rejected if rj["run"][0].get("mode") == "sched"]
         others = any(rj["run"][0].get("mode") != "sched" for rj in rejected)
         recs2, _, _, _ = harness(ctx, again, "replay.ndjson", 1 if others else 0,
-                                 ctx.pick(25, 400) if others else 0, False)
+                                 ctx.pick(25, 400) if others else 0, False,
+                                 burst=ctx.pick(6, 60) if others else 0)
         rej2, _, st2 = ctx.validate_runs("PlayQueue_Trace", recs2, max_rejects=len(rejected) + 12)
         tstates += st2
         # sched runs of the replay are numbered 0.. in the order of `again`
@@ -254,7 +283,7 @@ def run(ctx):
         for rj in rejected:
             key = classify(rj["run"])
             mode = rj["run"][0].get("mode")
-            repro = run_id(rj["run"]) in rejected2 or (mode == "stress" and key in second_by_key)
+            repro = run_id(rj["run"]) in rejected2 or (mode in ("stress", "burst") and key in second_by_key)
             if not repro:
                 unrepro += 1
                 continue
@@ -270,7 +299,7 @@ def run(ctx):
     # negative control: corrupt an accepted run and see it rejected
     neg = negative_control(ctx, recs, rejected)
 
-    runs = stats["schedules"] + stats["scenarios"] + stats["stress_runs"]
+    runs = stats["schedules"] + stats["scenarios"] + stats["stress_runs"] + stats["burst_runs"]
     cov = {
         "states": mc_states + tstates,
         "samples": stats["samples"][:2] + [{"trace_events": total, "runs": runs}],
@@ -284,6 +313,8 @@ def run(ctx):
         "blocked_steps": stats["blocked_steps"],
         "scenarios": stats["scenarios"],
         "stress_runs": stats["stress_runs"],
+        "burst_runs": stats["burst_runs"],
+        "burst_child_died": stats["burst_child_died"],
         "packets_written": stats["packets_written"],
         "packets_on_wire": stats["packets_on_wire"],
         "gate_arrivals": stats["gate_arrivals"],
